@@ -95,6 +95,8 @@ var errKeepaliveStopped = errors.New("keep-alive ping stopped")
 
 // stopKeepalivePing cancels the keep-alive ping in progress, if any.
 func (c *Client) stopKeepalivePing() {
+	c.pingLock.Lock()
+	defer c.pingLock.Unlock()
 	transactionx, _ := c.transactions.GetByType(pkts.PINGREQ)
 	if transaction, ok := transactionx.(*pingTransaction); ok && transaction.keepalive {
 		transaction.Fail(errKeepaliveStopped)
